@@ -25,7 +25,7 @@ PROP = dict(
                  'the skeleton extractor in harness/pmm/c09_test.go (go/parser over bitmap_allocator.go; fails on any AST node, '
                  'field or call it does not understand); its classification of allocator state: freeCount, reservedPages, '
                  'totalPages and bitmap words are lock-protected, pools/startFrame/endFrame/freeBitmap headers are init-only '
-                 '(checked: written only by setupPoolBitmaps)',
+                 '(checked: written only by functions reachable from Init and unreachable from AllocFrame/FreeFrame in the generated call graph)',
                  'the code between Acquire and Release computes Pmm.alloc / Pmm.free: differential testing (C01/C03 and the '
                  'sequential part of every C09 round)',
                  'vmm seams (reserveRegionFn/mapFn) scripted, multiboot block built by the harness; export shim '
